@@ -116,12 +116,13 @@ Proof.
         -- specialize (Hn (m_si st)). split; nia.
     + destruct ((n <? 0) || (10 <=? n)); [discriminate|].
       destruct (m_caps st n) as [cs ce].
-      destruct ((cs <=? ce) && (m_si st + ce - cs <=? slen s));
+      destruct ((cs <=? ce) && (m_si st + ce - cs <=? slen s)) eqn:Ec;
         [|intros H; injection H as Hst Ht; subst st' t; split; lia].
+      apply andb_true_iff in Ec. destruct Ec as [Ec _]. apply Z.leb_le in Ec.
       destruct (slice s cs ce); [|discriminate].
       destruct (slice s (m_si st) (m_si st + ce - cs)); [|discriminate].
-      destruct (list_eqb l l0); intros H; injection H as Hst Ht; subst st' t; [|split; lia].
-      unfold Phi. cbn [m_si m_pi m_tb]. specialize (Hn (m_si st + ce - cs)). split; lia.
+      destruct (list_eqb l l0); intros H; injection H as Hst Ht; subst st' t; [|split; nia].
+      unfold Phi. cbn [m_si m_pi m_tb]. specialize (Hn (m_si st + ce - cs)). split; nia.
     + destruct (m_si st <? slen s); [|intros H; injection H as Hst Ht; subst st' t; split; lia].
       destruct (getb s (m_si st)); [|discriminate].
       destruct (z =? op); [|intros H; injection H as Hst Ht; subst st' t; split; lia].
@@ -180,3 +181,16 @@ Proof.
   unfold Phi, start_state. cbn [m_si m_pi m_tb sumC]. pose proof (P_range init O). lia.
 Qed.
 End Charges.
+
+(* "matching work is charged": counting one unit of work per step plus one per
+   byte the step looks at beyond the first — greedy runs, %b scans and (since
+   the back-reference comparison calls consumeBudgetN) back-references all
+   charge one tick per byte — the total work of a run is bounded by the ticks:
+       work = steps + ticks <= Phi st + (2(|items|+2) + 1) * ticks. *)
+Theorem work_charged : forall items ea s f u st o u' n,
+  runs items ea s f u st = (o, u', n) ->
+  Z.of_nat n + (u' - u) <= Phi items st + (2 * (Z.of_nat (length items) + 2) + 1) * (u' - u).
+Proof.
+  intros items ea s f u st o u' n H.
+  destruct (budget_charges items ea s f u st o u' n H) as [H1 H2]. lia.
+Qed.
